@@ -202,6 +202,88 @@ func unit(ki, mode int) harness.Unit {
 // reuseUnit: sequences of helper calls in which the caller reuses ONE key buffer and ONE data
 // buffer (overwritten in place between calls) and keeps earlier outputs: every output must equal
 // the stateless definition and must not change when the buffers are reused afterwards.
+// crossHistoryUnit: the IV installed by SetIV is package-level state, and the GCM helpers live in
+// the same package. Every sequence up to the depth bound over {SetIV(iv1), SetIV(iv2), each mode
+// helper (encrypt), GCM encrypt with a 12-byte and with a 16-byte nonce, GCM decrypt} runs in one
+// process; every mode-helper result must be the standard ciphertext under the IV set LAST by
+// SetIV, and every GCM result must be what the same call gives on its own.
+func crossHistoryUnit(first, depth int) harness.Unit {
+	return harness.Unit{Name: fmt.Sprintf("cross-helper-histories/first=%d/depth=%d", first, depth), Run: func(c *harness.Ctx) {
+		key := keys[1]
+		ivs := [][]byte{pu.Msg(901, 16), pu.Msg(902, 16)}
+		pt := pu.Msg(77, 37)
+		n12, n16, aad := pu.Msg(5, 12), pu.Msg(6, 16), pu.Msg(7, 5)
+		blk := refsm4.Must(key)
+		g12, _ := cipher.NewGCMWithNonceSize(blk, 12)
+		g16, _ := cipher.NewGCMWithNonceSize(blk, 16)
+		want12, want16 := g12.Seal(nil, n12, pt, aad), g16.Seal(nil, n16, pt, aad)
+		names := []string{"SetIV(iv1)", "SetIV(iv2)", "Sm4Ecb", "Sm4Cbc", "Sm4CFB", "Sm4OFB", "GCMEncrypt(12-byte nonce)", "GCMEncrypt(16-byte nonce)", "GCMDecrypt(12-byte nonce)"}
+		nOps := len(names)
+		total := 1
+		for i := 1; i < depth; i++ {
+			total *= nOps
+		}
+		for code := 0; code < total; code++ {
+			ops := []int{first}
+			for x, i := code, 1; i < depth; i++ {
+				ops = append(ops, x%nOps)
+				x /= nOps
+			}
+			sm4.SetIV(make([]byte, 16))
+			cur := make([]byte, 16)
+			hist := ""
+			c.Add("evaluations", 1)
+			c.DistinctS("nontrivial", fmt.Sprintf("cross/%v", ops))
+			bad := false
+			for i, op := range ops {
+				if i > 0 {
+					hist += "; "
+				}
+				hist += names[op]
+				if bad {
+					break
+				}
+				c.Guard("cross-history-panic", hist, nil, func() {
+					switch {
+					case op <= 1:
+						if err := sm4.SetIV(append([]byte{}, ivs[op]...)); err != nil {
+							c.Violate("cross-history:setiv", err.Error(), nil, nil)
+							bad = true
+						}
+						cur = ivs[op]
+					case op <= 5:
+						mode := op - 2
+						got, err := call(mode, key, append([]byte{}, pt...), true)
+						want := refEnc(mode, key, cur, pt)
+						if err != nil || !bytes.Equal(got, want) {
+							c.Violate(fmt.Sprintf("cross-history:%s-depends-on-earlier-calls", modeNames[mode]), fmt.Sprintf("in the call history [%s] the %s helper does not produce the standard ciphertext under the IV set last by SetIV (err %v)", hist, modeNames[mode], err), nil, nil)
+							bad = true
+						}
+					case op == 6 || op == 7:
+						nonce, want := n12, want12
+						if op == 7 {
+							nonce, want = n16, want16
+						}
+						ct, tag := sm4.GCMEncrypt(key, append([]byte{}, nonce...), append([]byte{}, pt...), append([]byte{}, aad...))
+						if !bytes.Equal(append(append([]byte{}, ct...), tag...), want) {
+							c.Violate("cross-history:gcm-depends-on-earlier-calls", fmt.Sprintf("in the call history [%s] GCMEncrypt differs from standard GCM", hist), nil, nil)
+							bad = true
+						}
+					default:
+						p2, tag := sm4.GCMDecrypt(key, append([]byte{}, n12...), append([]byte{}, want12[:len(pt)]...), append([]byte{}, aad...))
+						if !bytes.Equal(p2, pt) || !bytes.Equal(tag, want12[len(pt):]) {
+							c.Violate("cross-history:gcm-decrypt-depends-on-earlier-calls", fmt.Sprintf("in the call history [%s] GCMDecrypt differs from standard GCM", hist), nil, nil)
+							bad = true
+						}
+					}
+				})
+			}
+		}
+		sm4.SetIV(make([]byte, 16))
+		c.Sample(fmt.Sprintf("all call histories of length %d starting with %s over %v", depth, names[first], names))
+	}}
+}
+
 func reuseUnit() harness.Unit {
 	return harness.Unit{Name: "caller-buffer-reuse-histories", Run: func(c *harness.Ctx) {
 		sm4.SetIV(make([]byte, 16))
@@ -264,7 +346,7 @@ func reuseUnit() harness.Unit {
 var Prop = &harness.Prop{
 	ID:          "C11",
 	Level:       "exploration",
-	Rule:        "full product of 3 keys x 3 IV settings (default zero, pattern, all-ones via SetIV) x every plaintext length of the tier x tail patterns (position-dependent, and last 1/2/v bytes equal to v for v in {pad byte, 1, 2, 16, pad-1}) x 4 modes x spare capacity {0,1,16,64}; ciphertext compared with crypto/cipher's mode over the independent SM4 on the PKCS#7-padded input; the STANDARD ciphertext is decrypted by the helper; inputs, key, IV and spare capacity are canary-checked. A case is distinct/non-trivial per (iv, length, tail, spare, mode).",
+	Rule:        "full product of 3 keys x 3 IV settings (default zero, pattern, all-ones via SetIV) x every plaintext length of the tier x tail patterns (position-dependent, and last 1/2/v bytes equal to v for v in {pad byte, 1, 2, 16, pad-1}) x 4 modes x spare capacity {0,1,16,64}; ciphertext compared with crypto/cipher's mode over the independent SM4 on the PKCS#7-padded input; the STANDARD ciphertext is decrypted by the helper; inputs, key, IV and spare capacity are canary-checked. Cross-helper call histories: every sequence of length 4 (thorough 5) over {SetIV(iv1), SetIV(iv2), Sm4Ecb, Sm4Cbc, Sm4CFB, Sm4OFB, GCMEncrypt with a 12- and a 16-byte nonce, GCMDecrypt} in one process: each mode helper must use the IV set last by SetIV and each GCM call must equal standard GCM, whatever ran before. A case is distinct/non-trivial per (iv, length, tail, spare, mode) or per history.",
 	Assumptions: []string{"refsm4 correct (anchored on GM/T 0002 vectors); Go's crypto/cipher CBC/CFB/OFB are the standard definitions (CFB = full-block CFB-128)"},
 	Bounds: func(tier string) string {
 		if tier == "thorough" {
@@ -280,6 +362,13 @@ var Prop = &harness.Prop{
 			}
 		}
 		u = append(u, reuseUnit())
+		hd := 4
+		if tier == "thorough" {
+			hd = 5
+		}
+		for f := 0; f < 9; f++ {
+			u = append(u, crossHistoryUnit(f, hd))
+		}
 		return u
 	},
 }
